@@ -105,7 +105,10 @@ def render_test(p, sfx):
             return repr(ann(f["wrap"], nm(t)))
         return ann(f["wrap"], repr(nm(t)))
 
-    for item in p["order"]:
+    split = p.get("split")
+    for idx, item in enumerate(p["order"]):
+        if split is not None and idx == split and not local:
+            lines.append("#--SPLIT--")
         if item == "P":
             lines += [f"{ind}class {nm('P')}(int, utype.Rule):", f"{ind}    gt = 0", ""]
             defined.add("P")
@@ -153,7 +156,11 @@ def render_test(p, sfx):
     head = ("from __future__ import annotations\n" if future else "") + "import utype\nfrom typing import *\nSEEN = {}\n"
     if local:
         exported = ", ".join([f"{nm(n)}={nm(n)}" for n in p["order"] if n != "f"] + ([f"f{sfx}=f{sfx}"] if p.get("func") else []))
-        src = head + "def make():\n" + "\n".join(lines) + f"\n    return dict({exported})\nglobals().update(make())\n"
+        decoys = ""
+        if p.get("decoy"):
+            # unrelated module-level classes of the same names: a local class must still refer to itself
+            decoys = "".join(f"class {nm(n)}(utype.Schema):\n    zz: int\n" for n in p["order"] if n not in ("f", "P"))
+        src = head + decoys + "def make():\n" + "\n".join(lines) + f"\n    return dict({exported})\nLOCALS = make()\n"
     else:
         src = head + "\n".join(lines)
     return src, unresolved_at_creation
@@ -214,12 +221,18 @@ def render_ref(p, sfx):
     return "\n".join(lines)
 
 
-def load(src, tag):
+def load(src, tag, between=None):
     _n[0] += 1
     name = f"vf_c17_{tag}{_n[0]}"
     mod = types.ModuleType(name)
     sys.modules[name] = mod
-    exec(compile(src, name, "exec"), mod.__dict__)
+    parts = src.split("#--SPLIT--\n")
+    exec(compile(parts[0], name, "exec"), mod.__dict__)
+    fut = "from __future__ import annotations\n" if src.startswith("from __future__ import annotations") else ""
+    for part in parts[1:]:
+        if between:
+            between(mod)
+        exec(compile(fut + part, name, "exec"), mod.__dict__)   # the future flag is per compilation unit
     return mod
 
 
@@ -256,8 +269,10 @@ def outcome_of(fn, sfx):
 
 def call_entity(mod, ent, sfx, ref, inp):
     data = codec.decode(inp)
+    loc = getattr(mod, "LOCALS", None) if not ref else None
+    get = (lambda n: loc[n]) if loc is not None else (lambda n: getattr(mod, n))
     if ent == "f":
-        f = getattr(mod, f"f{sfx}R" if ref else f"f{sfx}")
+        f = get(f"f{sfx}R" if ref else f"f{sfx}")
         args, kw = data
 
         def run():
@@ -265,7 +280,7 @@ def call_entity(mod, ent, sfx, ref, inp):
             r = f(*args, **kw)
             return {"ret": r, "seen": mod.SEEN.get("v")}
         return outcome_of(run, sfx)
-    cls = getattr(mod, f"{ent}{sfx}R_0" if ref else f"{ent}{sfx}")
+    cls = get(f"{ent}{sfx}R_0" if ref else f"{ent}{sfx}")
     return outcome_of(lambda: cls.__from__(data), sfx)
 
 
@@ -277,8 +292,20 @@ def run_program(p, uses, sfx=None, extra_first=None):
         sfx = f"_{_n[0]}x"
     src, unresolved = render_test(p, sfx)
     ref_src = render_ref(p, sfx)
+    def early(mod):
+        # first uses made while later definitions do not exist yet: whatever they give (NameError included), they
+        # must not spoil the uses made once everything is defined
+        for item in p["order"][:p.get("split") or 0]:
+            try:
+                if item == "f":
+                    if not p["func"].get("pos"):
+                        getattr(mod, f"f{sfx}")()
+                elif item != "P":
+                    getattr(mod, f"{item}{sfx}").__from__({"v": 1})
+            except Exception:
+                pass
     try:
-        tm = load(src, "t")
+        tm = load(src, "t", between=early)
     except decl_errors() as e:
         return None, unresolved, f"{type(e).__name__}: {e}"
     try:
@@ -339,6 +366,10 @@ def feats(p):
                 f.add("self")
     if p.get("func"):
         f.add("func")
+    if p.get("decoy"):
+        f.add("decoy")
+    if p.get("split") is not None:
+        f.add("used-before-fully-defined")
     return sorted(f)
 
 
@@ -450,6 +481,10 @@ def cases(draw):
             func = None
     order = draw(st.permutations(names + (["P"] if rule else []) + (["f"] if func else [])))
     p = {"classes": classes, "order": list(order), "future": future, "local": local, "rule": rule, "func": func}
+    if local and draw(st.booleans()):
+        p["decoy"] = True
+    if not local and draw(st.booleans()):
+        p["split"] = draw(st.integers(1, len(order)))
     ents = names + (["f"] if func else [])
     uses = []
     for ent in draw(st.permutations(ents)):
